@@ -139,4 +139,18 @@ theorem missing_day_no_hours (m : Model) (ids : List Id) (h : ∀ i ∈ ids, m.d
   rw [this]
   simp [List.filter_eq_nil_iff]
 
+/-- **ground slabs** (EN ISO 13370, `u_value_gnd_slab`): with a positive equivalent thickness the result is a finite number for every
+    characteristic dimension ≥ 0 — including 0, the value the code uses for a null-area slab (before the repair F-C14b the perimeter
+    term 2ψ/B' divided by that 0) -/
+theorem uGndSlab_finite (F : Fns) (hpi : 0 < F.pi) (z dt bp psi : Rat) (hB : 0 < dt + z / 2) (hbp : 0 ≤ bp) :
+    (uGndSlab F z dt bp psi).nf = false := by
+  have h1 : ¬ (dt + z / 2 = 0) := by intro h; rw [h] at hB; exact absurd hB (by decide)
+  have h2 : ¬ (F.pi * bp + (dt + z / 2) = 0) := by
+    have : 0 ≤ F.pi * bp := mul_nonneg (le_of_lt hpi) hbp
+    intro h; linarith
+  have h3 : ¬ (457 / 1000 * bp + (dt + z / 2) = 0) := by
+    have : (0 : Rat) ≤ 457 / 1000 * bp := mul_nonneg (by norm_num) hbp
+    intro h; linarith
+  simp [uGndSlab, h1, h2, h3]
+
 end Cte.C14
